@@ -50,6 +50,7 @@ struct WalkOut {
         border_node* bn;
         std::size_t level;
         std::size_t layer;
+        base_node* layer_root;
     };
     std::vector<Entry> entries;
     std::map<node_version64*, node_version64_body> border_versions;
@@ -119,7 +120,7 @@ private:
             o_.fail("layer root " + pp(root) + " parent != linking border");
         }
         std::vector<border_node*> leaves;
-        walk_node(root, Bound{}, Bound{}, prefix, level, layer, leaves, is_tree_root, true);
+        walk_node(root, Bound{}, Bound{}, prefix, level, layer, leaves, is_tree_root, true, root);
         if (!o_.ok) { return; }
         // leaf chain == in-order leaf list
         for (std::size_t i = 0; i < leaves.size(); ++i) {
@@ -137,7 +138,8 @@ private:
     }
 
     void walk_node(base_node* n, Bound lo, Bound hi, const std::string& prefix, std::size_t level,
-                   std::size_t layer, std::vector<border_node*>& leaves, bool is_tree_root, bool is_layer_root) {
+                   std::size_t layer, std::vector<border_node*>& leaves, bool is_tree_root, bool is_layer_root,
+                   base_node* layer_root) {
         if (!o_.ok) { return; }
         if (n == nullptr) {
             o_.fail("null child");
@@ -150,7 +152,7 @@ private:
                 o_.fail("border flag on non-border node");
                 return;
             }
-            walk_border(b, lo, hi, prefix, level, layer, leaves, is_tree_root && is_layer_root);
+            walk_border(b, lo, hi, prefix, level, layer, leaves, is_tree_root && is_layer_root, layer_root);
         } else {
             auto* in = dynamic_cast<interior_node*>(n);
             if (in == nullptr) {
@@ -194,13 +196,13 @@ private:
                 Bound chi = hi;
                 if (i > 0) { clo = Bound{true, in->get_key_slice_at(i - 1), in->get_key_length_at(i - 1)}; }
                 if (i < nk) { chi = Bound{true, in->get_key_slice_at(i), in->get_key_length_at(i)}; }
-                walk_node(ch, clo, chi, prefix, level + 1, layer, leaves, false, false);
+                walk_node(ch, clo, chi, prefix, level + 1, layer, leaves, false, false, layer_root);
             }
         }
     }
 
     void walk_border(border_node* b, Bound lo, Bound hi, const std::string& prefix, std::size_t level,
-                     std::size_t layer, std::vector<border_node*>& leaves, bool is_tree_root_border) {
+                     std::size_t layer, std::vector<border_node*>& leaves, bool is_tree_root_border, base_node* layer_root) {
         ++o_.n_border;
         leaves.push_back(b);
         o_.borders.push_back(b);
@@ -249,7 +251,7 @@ private:
                 walk_layer(nl, full, level + 1, b, layer + 1, false);
             } else {
                 if (lv->get_next_layer() != nullptr) { o_.fail("value entry holds a next-layer pointer"); }
-                o_.entries.push_back({full, lv->get_value(), b, level, layer});
+                o_.entries.push_back({full, lv->get_value(), b, level, layer, layer_root});
             }
         }
     }
